@@ -122,6 +122,10 @@ pub struct OneRun {
 
 /// Execute one schedule of a scenario and check it. `crash_leg`: recover a copy of the directory taken at every step.
 pub fn run_schedule(sc: &Scenario, prefix: &[usize], crash_leg: bool) -> Result<OneRun, ExecError> {
+    fresh_thread(|| run_schedule_inner(sc, prefix, crash_leg))
+}
+
+fn run_schedule_inner(sc: &Scenario, prefix: &[usize], crash_leg: bool) -> Result<OneRun, ExecError> {
     let scratch = Scratch::new("c15");
     let root: PathBuf = scratch.path().to_path_buf();
     let persist = Arc::new(FilePersist::new(cfg(&root, sc.buffer_size)).expect("persist opens"));
@@ -312,6 +316,9 @@ pub fn c15(args: &Args) -> i32 {
     quiet_panics();
     if let Some(p) = &args.replay {
         let j = read_replay(p);
+        if j["case"]["scenario"]["prop"].is_string() {
+            return crate::e4_se::replay(args, "C15");
+        }
         let sc: Scenario = serde_json::from_value(j["case"]["scenario"].clone()).expect("scenario");
         let prefix: Vec<usize> = serde_json::from_value(j["case"]["schedule"].clone()).expect("schedule");
         let mut bad = false;
@@ -381,15 +388,18 @@ pub fn c15(args: &Args) -> i32 {
             Err(e) => run.machinery_error(format!("scenario {}: {e:?}", sc.name)),
         }
     });
+    // storage-engine scenarios (insert || save_all / compact_all / delete / insert of the same tuple)
+    let (s_sched, s_steps, s_imgs, s_dl, s_b) = crate::e4_se::explore_scenarios(&run, "C15", bound);
     let t = totals.lock().unwrap();
     run.put("scenarios_completed", json!(done));
-    run.put("schedules", json!(t.0));
-    run.put("states", json!(t.1));
-    run.put("transitions", json!(t.1));
-    run.put("traces_validated_against_impl", json!(t.0));
-    run.put("crash_images_recovered", json!(t.2));
-    run.put("deadlocks", json!(t.3));
-    run.put("preemption_bound_completed_in_every_scenario", json!(if t.4 == usize::MAX { 0 } else { t.4 }));
+    run.put("schedules", json!(t.0 + s_sched));
+    run.put("states", json!(t.1 + s_steps));
+    run.put("transitions", json!(t.1 + s_steps));
+    run.put("traces_validated_against_impl", json!(t.0 + s_sched));
+    run.put("crash_images_recovered", json!(t.2 + s_imgs));
+    run.put("deadlocks", json!(t.3 + s_dl));
+    run.put("storage_engine_schedules", json!(s_sched));
+    run.put("preemption_bound_completed_in_every_scenario", json!((if t.4 == usize::MAX { 0 } else { t.4 }).min(s_b)));
     drop(t);
     let _ = Instant::now();
     run.finish()
